@@ -601,6 +601,14 @@ func (o *oracles) afterStep(st stepRef) {
 	if o.on("C11") {
 		if st.kind == "api" && o.lastAPI != nil && o.s.writeFault("api", 0, o.lastAPI.op.ID) == nil {
 			o.checkAtomic(o.lastAPI.op, o.lastAPI.r)
+		} else if st.kind == "api" && o.lastAPI != nil {
+			// a call made while the disk was full: what it did to the tag is not
+			// judged (it may have answered with an error and applied the change), so
+			// nothing is known any more about which marks of that tag must stay
+			delete(o.ackMarks, o.lastAPI.op.Name)
+			if o.lastAPI.op.NewName != "" {
+				delete(o.ackMarks, o.lastAPI.op.NewName)
+			}
 		}
 		if o.s.res.Viol == nil {
 			o.checkGraph()
